@@ -124,6 +124,8 @@ static uint64_t run_one(Prop *prop, const J &plan, Acc *acc, bool count) {
 		acc->api_calls += e.apis; acc->wire_msgs += e.bus.wire.size(); acc->uplink_frames += e.bus.done.size();
 		acc->decision_points += sim::recorded_decision_points();
 		for (auto &kv : e.bus.fired) acc->faults[kv.first] += (int64_t) kv.second;
+		if (st.preempt_injected) acc->faults["thread-descheduled-at-lock-point"] += (int64_t) st.preempt_injected;
+		if (st.starve_applied) acc->faults["thread-starved"] += (int64_t) st.starve_applied;
 		for (auto &kv : e.probes) acc->probes[kv.first] += kv.second;
 		static const char *pn[] = {"random-walk", "pct", "sticky", "starve", "replay", "fifo"};
 		acc->policies[pn[plan["sched"].geti("policy", 0) % 6]]++;
